@@ -705,6 +705,15 @@ fn verify<S: IndexedFull>(repo: &Repository<S>, snap: &SnapshotFile, prefix: &Pa
         restore_into(repo, &by_path_nodes[&d.rel], &dest_path, RestoreOptions::default()).map_err(|e| format!("oracle-fail:by-path-restore-{e}"))?;
         compare_restored(&dest_path, &sub_exps, &[], "by-path-restore")?;
     }
+    // … and one file (or symlink) found by path: the destination then holds exactly that entry
+    let sub_files: Vec<&Exp> = exps.iter().filter(|x| !matches!(x.kind, SrcKind::Dir)).collect();
+    if !sub_files.is_empty() {
+        let f = *rng.pick(&sub_files);
+        let one = vec![Exp { rel: last_comp(&f.rel).to_vec(), ..f.clone() }];
+        let dest_path = tmp.join("subf");
+        restore_into(repo, &by_path_nodes[&f.rel], &dest_path, RestoreOptions::default()).map_err(|e| format!("oracle-fail:by-path-restore-file-{e}"))?;
+        compare_restored(&dest_path, &one, &[], "by-path-restore-file")?;
+    }
     // --- ls variants: non-recursive listing of the root and of directories = their direct children; recursive listing of a
     // directory node = its descendants (paths relative to it)
     let children_of = |dir: Option<&[u8]>| -> BTreeMap<Vec<u8>, char> { exps.iter().filter(|x| parent_of(&x.rel) == dir).map(|x| (last_comp(&x.rel).to_vec(), exp_char(x))).collect() };
